@@ -515,30 +515,63 @@ def instMembers : List (String × Bool × Ty) → List (Val × Val) → Option N
     | some x => if inst t x then (instMembers ms es).map (· + 1) else none
 end
 
-/-- declared block types: `Callable` or `Callable[min,max]` -/
+/-- the types block parameters are written in: a small family whose assignability is evident (`Any` accepts everything,
+    `Numeric` accepts `Integer`, otherwise only the type itself) -/
+inductive BP where
+  | any | str | int | num | bool
+  deriving Repr, DecidableEq
+
+/-- `isAssignable(a, b)`: `a` accepts every instance of `b` -/
+def BP.asg : BP → BP → Bool
+  | .any, _ => true
+  | .num, .int => true
+  | a, b => a == b
+
+/-- declared block types: `Callable`, `Callable[min,max]` or `Callable[T1,…,Tn,min,max]` (the last type repeats up to `max`) -/
 inductive BTy where
   | any
   | range (min : Nat) (max : Option Nat)
+  | typed (ts : List BP) (min : Nat) (max : Option Nat)
   deriving Repr
 
-/-- a block given by the caller: a lambda taking `min..max` arguments of type Any -/
+/-- a block given by the caller: a lambda taking `min..max` arguments.  `types` are the types of its parameters in order
+    (the last one is the repeated parameter when `max` is unbounded); `[]` stands for "every parameter is of type Any" (or
+    there is none): the parameter comparison is vacuous for such a block either way -/
 structure Blk where
   min : Nat
   max : Option Nat
+  types : List BP := []
   deriving Repr
 
+/-- the loop of `TupleType.IsAssignable`, Tuple against Tuple, as `CallableType.IsAssignable` uses it: the BLOCK's parameter tuple
+    (`bts`) must accept the DECLARED one (`dts`) at every position an instance of the declared tuple can have — positions
+    `0 … max(#bts, #dts) - 1` below the declared maximum, each tuple repeating its last type.  (`dts = []` does not occur: a
+    `Callable[T…, min, max]` without types is `Callable[min,max]`, whose tuple is `[Unit]`, see `binst`) -/
+def paramsOK (bts dts : List BP) (dmax : Option Nat) : Bool :=
+  bts.isEmpty || dts.isEmpty ||
+    ((List.range (Nat.max dts.length bts.length)).all fun idx =>
+       (match dmax with
+        | some m => decide (m ≤ idx)
+        | none => false) ||
+       BP.asg (bts.getD (Nat.min idx (bts.length - 1)) .any) (dts.getD (Nat.min idx (dts.length - 1)) .any))
+
+/-- the size part: the lambda must be callable with `a` up to `b` arguments, i.e. the size range of its tuple includes `[a,b]` -/
+def sizesOK (a : Nat) (b : Option Nat) (k : Blk) : Bool :=
+  decide (k.min ≤ a) &&
+    (match k.max, b with
+     | none, _ => true
+     | some _, none => false
+     | some m, some b' => decide (b' ≤ m))
+
 /-- `isAssignable(declared, block.PType())` for these shapes (`CallableType.IsAssignable` compares the parameter tuples
-    in reverse: the lambda's tuple must accept the declared one): the default Callable accepts every lambda; for
-    `Callable[a,b]` the lambda must be callable with `a` up to `b` arguments, i.e. the size range of its tuple includes
-    `[a,b]` (`TupleType.IsAssignable`: `givenOrActualSize.IsAssignable`; the element loop compares `Any` with `Unit`,
-    always true) -/
+    in reverse: the lambda's tuple must accept the declared one): the default Callable accepts every lambda; otherwise
+    `TupleType.IsAssignable`: `givenOrActualSize.IsAssignable`, then the position loop `paramsOK`.  The tuple of an untyped
+    `Callable[min,max]` is `[Unit]` (types/tupletype.go `tupleFromArgs`, `callable`), and every type accepts `Unit`: only
+    the sizes count -/
 def binst : BTy → Blk → Bool
   | .any, _ => true
-  | .range a b, k => decide (k.min ≤ a) &&
-      (match k.max, b with
-       | none, _ => true
-       | some _, none => false
-       | some m, some b' => decide (b' ≤ m))
+  | .range a b, k => sizesOK a b k
+  | .typed ts a b, k => sizesOK a b k && paramsOK k.types ts b
 
 end Alpha
 
